@@ -154,4 +154,35 @@ theorem cellsFrom_append (c s g : Byte) (a : Nat) (x y : List Byte) :
   | nil => simp [cellsFrom]
   | cons h t ih => simp [cellsFrom, ih, Nat.add_assoc, Nat.add_comm 1]
 
+/-! ## Additions for C07 (definitions only): mixed short/long header files -/
+
+/-- the form a writer that prefers the short header produces (doc/file-formats.md: "$01..$7f"
+records carry family = header, segment CODE, implied granularity) -/
+def serAuto (r : Rec) : List Byte := if r.shortOK then serShort r else serLong r
+
+/-- an item written with a requested form; the short form is used only where it is legal -/
+def serItemForm : Item × Bool → List Byte
+  | (.data r, true) => serAuto r
+  | (.data r, false) => serLong r
+  | (.entry a, _) => [0x80] ++ le32 a
+
+def serItemAuto : Item → List Byte
+  | .data r => serAuto r
+  | .entry a => [0x80] ++ le32 a
+
+/-- a code file whose records use any mix of header forms -/
+def serFileForm (items : List (Item × Bool)) (creator : List Byte) : List Byte :=
+  magic ++ (items.map serItemForm).flatten ++ [0x00] ++ creator
+
+def serFileAuto (items : List Item) (creator : List Byte) : List Byte :=
+  magic ++ (items.map serItemAuto).flatten ++ [0x00] ++ creator
+
+/-- what BIND has to keep: every entry record, and the data records whose family passes the filter
+(`none` = no `-f` option = everything) -/
+def keepItem (flt : Option (List Byte)) : Item → Bool
+  | .data r => match flt with
+    | none => true
+    | some l => l.contains r.cpu
+  | .entry _ => true
+
 end AslModel.PFile
